@@ -90,3 +90,26 @@ func (ip *Interp) regexpMatchesStub(re Opaque, s Str, n *Term) Value {
 	ip.unsupported("regexp matching on symbolic input")
 	return nil
 }
+
+// clockNow models time.now(): (sec int64, nsec int32, mono int64). The wall clock is an arbitrary
+// non-decreasing reading (fresh symbolic per call).
+func (ip *Interp) clockNow() Value {
+	w := ip.W
+	if w == nil || ip.inInit {
+		return Tuple{i64(1700000000), Const(SBV32, 0), i64(1)}
+	}
+	tc := ip.TC
+	sec := w.freshVar(SBV64)
+	nsec := w.freshVar(SBV32)
+	w.inputs = append(w.inputs, Input{Kind: "aux", Vars: []*Term{sec}}, Input{Kind: "aux", Vars: []*Term{nsec}})
+	// years 1970..2200, nsec in range
+	w.addPC(tc.And(tc.SLe(i64(0), sec), tc.SLe(sec, i64(7258118400))))
+	w.addPC(tc.And(tc.SLe(Const(SBV32, 0), nsec), tc.SLt(nsec, Const(SBV32, 1000000000))))
+	if w.lastClockSec != nil {
+		later := tc.Or(tc.SLt(w.lastClockSec, sec), tc.And(tc.Eq(w.lastClockSec, sec), tc.SLe(w.lastClockNsec, nsec)))
+		w.addPC(later)
+	}
+	w.lastClockSec, w.lastClockNsec = sec, nsec
+	w.clockReads = append(w.clockReads, [2]*Term{sec, nsec})
+	return Tuple{sec, nsec, i64(1)}
+}
